@@ -31,6 +31,7 @@ import (
 type GenericObjectSetController struct {
 	newObjectSet      adapters.ObjectSetAccessorFactory
 	newObjectSetPhase genericObjectSetPhaseFactory
+	newObjectSlice    adapters.ObjectSliceFactory
 
 	client     client.Client
 	log        logr.Logger
@@ -105,6 +106,7 @@ func newGenericObjectSetController(
 	controller := &GenericObjectSetController{
 		newObjectSet:      newObjectSet,
 		newObjectSetPhase: newObjectSetPhase,
+		newObjectSlice:    newObjectSlice,
 
 		client:       client,
 		log:          log,
@@ -330,6 +332,11 @@ func (c *GenericObjectSetController) handleDeletionAndArchival(
 	// When removing the finalizer this function may be called one last time.
 	// .Teardown may allocate new watches and leave dangling watches.
 	if controllerutil.ContainsFinalizer(objectSet.ClientObject(), constants.CachedFinalizer) {
+		// Objects offloaded into ObjectSlices have to be torn down like inline objects.
+		if err := c.loadObjectSlicesForTeardown(ctx, objectSet); err != nil {
+			return err
+		}
+
 		var err error
 		done, err = c.teardownHandler.Teardown(ctx, objectSet)
 		if err != nil {
@@ -368,5 +375,34 @@ func (c *GenericObjectSetController) handleDeletionAndArchival(
 		objectSet.SetStatusControllerOf(nil) // we are no longer controlling anything.
 	}
 
+	return nil
+}
+
+// Inlines the objects of all referenced ObjectSlices into the phases of the given ObjectSet,
+// so teardown covers them just like objects that are listed inline.
+// ObjectSlices that are already gone are skipped: they can no longer tell what to clean up
+// and must not block the removal of the finalizer.
+func (c *GenericObjectSetController) loadObjectSlicesForTeardown(
+	ctx context.Context, objectSet adapters.ObjectSetAccessor,
+) error {
+	phases := objectSet.GetPhases()
+	for i := range phases {
+		phase := &phases[i]
+		for _, sliceName := range phase.Slices {
+			objSlice := c.newObjectSlice(c.scheme)
+			err := c.client.Get(ctx, client.ObjectKey{
+				Name:      sliceName,
+				Namespace: objectSet.ClientObject().GetNamespace(),
+			}, objSlice.ClientObject())
+			if apimachineryerrors.IsNotFound(err) {
+				continue
+			}
+			if err != nil {
+				return fmt.Errorf("getting ObjectSlice for teardown: %w", err)
+			}
+			phase.Objects = append(phase.Objects, objSlice.GetObjects()...)
+		}
+	}
+	objectSet.SetPhases(phases)
 	return nil
 }
